@@ -1158,6 +1158,25 @@ def check_index_discipline(report, f, ff, L, S, acc, picks, operand_side, lvedge
     #     fallback) forgets every earlier pick: the marks have to be written again right there, for ALL picks (indexed
     #     by the growing accumulator, not by the latest pick)
     growing = growing_accumulators(L, acc) - translated
+    # views / copies of ALL picks so far (`selected = picks[:b]`, `np.asarray(picks)`) index like the accumulator itself
+    changed = True
+    while changed:
+        changed = False
+        for m in ast.walk(L):
+            if isinstance(m, ast.Assign) and len(m.targets) == 1 and isinstance(m.targets[0], ast.Name) \
+                    and m.targets[0].id not in growing and m.targets[0].id not in translated:
+                v = m.value
+                while isinstance(v, ast.Call) and (callname(v) or "").split(".")[-1] in ("asarray", "array", "copy", "list") \
+                        and len(v.args) <= 1:
+                    v = v.args[0] if v.args else (v.func.value if isinstance(v.func, ast.Attribute) else v)
+                    if not isinstance(v, (ast.Call, ast.Name, ast.Subscript)):
+                        break
+                if isinstance(v, ast.Subscript) and isinstance(v.slice, ast.Slice) and v.slice.lower is None \
+                        and isinstance(v.value, ast.Name):
+                    v = v.value
+                if isinstance(v, ast.Name) and v.id in growing:
+                    growing.add(m.targets[0].id)
+                    changed = True
     tree = FuncTree(f.node)
     for m in ast.walk(L):
         if not (isinstance(m, ast.Assign) and len(m.targets) == 1 and isinstance(m.targets[0], ast.Name)
